@@ -137,35 +137,60 @@ Proof.
   intros. apply filter_ext_in. intros x Hx. apply zrange_In in Hx. apply hasl_tl. lia.
 Qed.
 
+(** The receipt loop never counts a deliverable entry without appending it:
+    the payload is exactly the deliverable part of the [it] entries it counted. *)
 Lemma rcv_loop_spec : forall max n l seq total a it,
   rcv_loop max n l seq total = Some (a, it) ->
-  scan max l total = true ->
   exists m : nat, it = Z.of_nat m /\ a = filter (hasl l seq) (zrange seq m).
 Proof.
-  induction n as [|n IH]; intros l seq total a it H Hs; cbn [rcv_loop] in H.
+  induction n as [|n IH]; intros l seq total a it H; cbn [rcv_loop] in H.
   - inversion H; subst. exists O. split; reflexivity.
-  - destruct l as [|[size has] tl]; [discriminate|]. cbn [scan] in Hs.
+  - destruct l as [|[size has] tl]; [discriminate|].
     destruct (has && (total + size <? max)) eqn:E1.
     + destruct (rcv_loop max n tl (seq + 1) (total + size)) as [[a' it']|] eqn:E; [|discriminate].
-      inversion H; subst. destruct (IH _ _ _ _ _ E Hs) as (m & -> & ->).
+      inversion H; subst. destruct (IH _ _ _ _ _ E) as (m & -> & ->).
       exists (S m). split; [lia|]. cbn [zrange filter]. rewrite hasl_hd.
       apply andb_true_iff in E1 as [-> _]. f_equal. symmetry. apply filter_hasl_tl.
-    + destruct (total + size >? max) eqn:E2.
+    + destruct (total + size >=? max) eqn:E2.
       * inversion H; subst. exists O. split; reflexivity.
-      * destruct has; [discriminate|].
+      * assert (Hh : has = false).
+        { destruct has; [|reflexivity]. cbn [andb] in E1.
+          rewrite Z.geb_leb in E2. apply Z.leb_gt in E2. apply Z.ltb_ge in E1. lia. }
+        subst has.
         destruct (rcv_loop max n tl (seq + 1) total) as [[a' it']|] eqn:E; [|discriminate].
-        inversion H; subst. destruct (IH _ _ _ _ _ E Hs) as (m & -> & ->).
+        inversion H; subst. destruct (IH _ _ _ _ _ E) as (m & -> & ->).
         exists (S m). split; [lia|]. cbn [zrange filter]. rewrite hasl_hd.
         symmetry. apply filter_hasl_tl.
 Qed.
 
-Lemma guard_scan : forall max st, no_exact_fill max st = true ->
-  forall k, scan max (skipn k st) 0 = true.
+(** A deliverable first entry of a batch that is smaller than the size limit
+    is always taken. *)
+Lemma rcv_loop_progress : forall max n size tl seq a it,
+  size < max ->
+  rcv_loop max (S n) ((size, true) :: tl) seq 0 = Some (a, it) ->
+  1 <= it /\ exists a', a = seq :: a'.
 Proof.
-  intros max st H k. unfold no_exact_fill in H. rewrite forallb_forall in H.
-  destruct (Nat.le_gt_cases k (length st)) as [Hk|Hk].
-  - apply H. apply in_seq. lia.
-  - rewrite skipn_all2 by lia. reflexivity.
+  intros max n size tl seq a it Hsz H. cbn [rcv_loop] in H.
+  replace (0 + size <? max) with true in H by (symmetry; apply Z.ltb_lt; lia). cbn [andb] in H.
+  destruct (rcv_loop max n tl (seq + 1) (0 + size)) as [[a' it']|] eqn:E; [|discriminate].
+  inversion H; subst. destruct (rcv_loop_spec _ _ _ _ _ _ _ E) as (m & -> & _).
+  split; [lia|now exists a'].
+Qed.
+
+(** The loop only fails when the sequence log ends before the requested count. *)
+Lemma rcv_loop_some : forall max n l seq total,
+  (n <= length l)%nat -> rcv_loop max n l seq total <> None.
+Proof.
+  induction n as [|n IH]; intros l seq total Hn; cbn [rcv_loop]; [discriminate|].
+  destruct l as [|[size has] tl]; [cbn [length] in Hn; lia|]. cbn [length] in Hn.
+  destruct (has && (total + size <? max)).
+  - specialize (IH tl (seq + 1) (total + size)).
+    destruct (rcv_loop max n tl (seq + 1) (total + size)) as [[a it]|]; [discriminate|].
+    exfalso. apply IH; [lia|reflexivity].
+  - destruct (total + size >=? max); [discriminate|].
+    specialize (IH tl (seq + 1) total).
+    destruct (rcv_loop max n tl (seq + 1) total) as [[a it]|]; [discriminate|].
+    exfalso. apply IH; [lia|reflexivity].
 Qed.
 
 Lemma nth_error_skipn' : forall (A : Type) (n : nat) (l : list A) (m : nat),
@@ -184,19 +209,19 @@ Proof.
   reflexivity.
 Qed.
 
-(** What a successful getPushData returns (under the guard): exactly the
-    deliverable numbers of [start .. upd], and upd >= start - 1. *)
-Lemma gpd_spec : forall c st start cnt seqs upd,
-  guard c st = true ->
-  gpd (c_kind c) st start cnt (c_maxsize c) = GData seqs upd ->
-  start - 1 <= upd /\ seqs = rf (matching (c_kind c) st) (start - 1) upd.
+(** What a successful getPushData returns, for every push type, store and
+    size limit: exactly the deliverable numbers of [start .. upd], and
+    upd >= start - 1. *)
+Lemma gpd_spec : forall k st start cnt max seqs upd,
+  gpd k st start cnt max = GData seqs upd ->
+  start - 1 <= upd /\ seqs = rf (matching k st) (start - 1) upd.
 Proof.
-  intros c st start cnt seqs upd G H. unfold gpd in H. unfold guard in G.
-  destruct (c_kind c) eqn:K.
+  intros k st start cnt max seqs upd H. unfold gpd in H.
+  destruct k eqn:K.
   - (* KBlock *)
     destruct (Z.to_nat cnt) as [|n] eqn:En; [discriminate|].
     destruct (suffix st start) as [l|]; [|discriminate].
-    destruct (blk_loop (c_maxsize c) (S n) l start 0) as [r|] eqn:E; [|discriminate].
+    destruct (blk_loop max (S n) l start 0) as [r|] eqn:E; [|discriminate].
     destruct r as [|x r]; [discriminate|]. remember (x :: r) as xs eqn:Exs. inversion H; subst seqs upd.
     apply blk_loop_spec in E. split; [lia|].
     change (matching KBlock st) with (fun _ : Z => true). rewrite rf_true.
@@ -205,9 +230,9 @@ Proof.
     destruct (Z.to_nat cnt) as [|n] eqn:En.
     { inversion H; subst. split; [lia|]. now rewrite rf_same. }
     unfold suffix in H. destruct (start <? 0) eqn:E0; [discriminate|].
-    destruct (rcv_loop (c_maxsize c) (S n) (skipn (Z.to_nat start) st) start 0) as [[a it]|] eqn:E; [|discriminate].
+    destruct (rcv_loop max (S n) (skipn (Z.to_nat start) st) start 0) as [[a it]|] eqn:E; [|discriminate].
     inversion H; subst.
-    destruct (rcv_loop_spec _ _ _ _ _ _ _ E (guard_scan _ _ G _)) as (m & -> & ->).
+    destruct (rcv_loop_spec _ _ _ _ _ _ _ E) as (m & -> & ->).
     split; [lia|]. unfold rf.
     replace (start - 1 + 1) with start by lia.
     replace (Z.to_nat (start + Z.of_nat m - 1 - (start - 1))) with m by lia.
